@@ -289,23 +289,18 @@ func (s *Store[H]) DeleteRange(ctx context.Context, from, to uint64) error {
 	updateHead := to == head.Height()+1
 
 	// Attempt to delete (wipe) the entire store
+	wipe := false
 	if updateTail && updateHead {
 		// Only wipe if 'to' is exactly at head+1 (normal case) to avoid accidental wipes
 		// Check if a header exists exactly at 'to' (in pending, cache, or disk)
 		// If it exists, we can't wipe - there's a header that would become the new tail
 		_, err := s.getByHeight(ctx, to)
-		if errors.Is(err, header.ErrNotFound) {
-			// No header at 'to', safe to wipe the entire store
-			if err := s.wipe(ctx); err != nil {
-				return fmt.Errorf("header/store: wipe: %w", err)
-			}
-			log.Info("header/store: wiped store")
-			return nil
-		}
-		if err != nil {
+		if err != nil && !errors.Is(err, header.ErrNotFound) {
 			return fmt.Errorf("header/store: checking header at %d: %w", to, err)
 		}
-		// Header exists at 'to', proceed with normal deletion
+		// No header at 'to', safe to wipe the entire store once its headers are deleted.
+		// If header exists at 'to', proceed with normal deletion.
+		wipe = errors.Is(err, header.ErrNotFound)
 	}
 
 	switch {
@@ -340,6 +335,15 @@ func (s *Store[H]) DeleteRange(ctx context.Context, from, to uint64) error {
 
 	// Delete the headers without automatic tail updates
 	actualTo, _, deleteErr := s.deleteRangeRaw(ctx, from, to)
+
+	if wipe && deleteErr == nil {
+		// all the headers are deleted, so reset the store pointers
+		if err := s.wipe(ctx); err != nil {
+			return fmt.Errorf("header/store: wipe: %w", err)
+		}
+		log.Info("header/store: wiped store")
+		return nil
+	}
 
 	// Always update pointers to reflect actual progress, even on partial delete.
 	// This ensures store consistency and allows retries to continue from where we left off.
